@@ -72,6 +72,24 @@ func genIOCase(r *sim.Rng, tier string, idx int) *IOCase {
 				w.LZ.Size, w.LZ.SizeInHeader = int64(n), true
 			}
 			w.Ops = genHistory(r, n, w.Format == "lzma2", []int{65536}, false)
+		} else if w.L2 != nil && r.Chance(1, 5) {
+			// small uncompressed chunks (incompressible data, Flush after every
+			// few bytes) laid across the end of the encoder's ring buffer: such a
+			// chunk leaves the dictionary in two pieces
+			d := sim.Pick(r, []int{4096, 4096, 4097, 6144})
+			b := sim.Pick(r, []int{273, 300, 1000})
+			w.L2.DictCap, w.L2.BufSize = d, b
+			ring := d + b + 1
+			first := ring*r.Range(1, 2) - r.Range(0, 500)
+			ops := []Op{{K: "w", N: first}, {K: "f"}}
+			n := first
+			for i := r.Range(4, 14); i > 0; i-- {
+				k := r.Range(1, 273)
+				ops = append(ops, Op{K: "w", N: k}, Op{K: "f"})
+				n += k
+			}
+			w.Payload = sim.Payload{Kind: "prng", N: n, Seed: r.Uint64()}
+			w.Ops = append(ops, Op{K: "c"})
 		} else if w.XZ != nil && r.Chance(1, 5) {
 			// several blocks, each of several LZMA2 chunks (a chunk is full at
 			// DictCap bytes below 64 KiB), written with few large Write calls:
